@@ -150,7 +150,7 @@ func (b *block) mustNoYield() bool {
 
 func (b *block) returnNormalRequired(isTerminating func(ast.Stmt) bool) bool {
 	assert(b.kind == kindDelay ||
-		b.kind == kindFor || b.kind == kindIf)
+		b.kind == kindFor || b.kind == kindIf || b.kind == kindSwitch)
 
 	if b.len() == 0 {
 		// e.g., following of last yield stmt has empty block
